@@ -44,8 +44,14 @@ type recorder struct {
 	errValue error
 }
 
-type sentReader struct{ ociregistry.BlobReader; id int }
-type sentWriter struct{ ociregistry.BlobWriter; id int }
+type sentReader struct {
+	ociregistry.BlobReader
+	id int
+}
+type sentWriter struct {
+	ociregistry.BlobWriter
+	id int
+}
 
 var (
 	stubErrs    [nMethods]error
@@ -230,16 +236,28 @@ func collect[T any](seq ociregistry.Seq[T]) (items []any, n int) {
 	return items, n
 }
 
-func invoke(f *ociregistry.Funcs, m int, ctx context.Context, salt int) result {
+// argVariants: how the non-repository arguments of a call are chosen. "plain" derives them all
+// from the salt; the others put the values an implementation is tempted to special-case (zero,
+// empty, negative, "whole blob", "same repository") in the numeric and string parameters.
+var argVariants = []string{"plain", "zero-empty", "negative", "whole-or-same"}
+
+func invoke(f *ociregistry.Funcs, m int, ctx context.Context, salt, variant int) result {
 	repo := fmt.Sprintf("repo/%d/%d", m, salt)
 	dig := ociregistry.Digest(fmt.Sprintf("sha256:%064x", salt+77))
 	tag := fmt.Sprintf("tag%d", salt)
+	// pick(plain, zero-empty, negative, whole-or-same)
+	pickI := func(v ...int64) int64 { return v[variant] }
+	pickS := func(v ...string) string { return v[variant] }
+	if variant == 1 {
+		tag = ""
+	}
 	switch m {
 	case 0:
 		r, err := f.GetBlob(ctx, repo, dig)
 		return result{args: []any{repo, dig}, repoArg: repo, vals: []any{r}, err: err}
 	case 1:
-		o0, o1 := int64(salt), int64(salt*3+1)
+		o0 := pickI(int64(salt), 0, -1, 0)
+		o1 := pickI(int64(salt*3+1), 0, -5, -1)
 		r, err := f.GetBlobRange(ctx, repo, dig, o0, o1)
 		return result{args: []any{repo, dig, o0, o1}, repoArg: repo, vals: []any{r}, err: err}
 	case 2:
@@ -258,26 +276,32 @@ func invoke(f *ociregistry.Funcs, m int, ctx context.Context, salt int) result {
 		d, err := f.ResolveTag(ctx, repo, tag)
 		return result{args: []any{repo, tag}, repoArg: repo, vals: []any{d}, err: err}
 	case 7:
-		desc := ociregistry.Descriptor{MediaType: "m", Digest: dig, Size: int64(salt)}
+		desc := ociregistry.Descriptor{MediaType: "m", Digest: dig, Size: pickI(int64(salt), 0, -1, 1)}
 		rd := bytes.NewReader([]byte("x"))
 		d, err := f.PushBlob(ctx, repo, desc, rd)
 		return result{args: []any{repo, desc, io.Reader(rd)}, repoArg: repo, vals: []any{d}, err: err}
 	case 8:
-		w, err := f.PushBlobChunked(ctx, repo, salt)
-		return result{args: []any{repo, salt}, repoArg: repo, vals: []any{w}, err: err}
+		cs := int(pickI(int64(salt), 0, -1, 1))
+		w, err := f.PushBlobChunked(ctx, repo, cs)
+		return result{args: []any{repo, cs}, repoArg: repo, vals: []any{w}, err: err}
 	case 9:
-		id := fmt.Sprintf("id-%d", salt)
-		off := int64(salt) - 1
-		w, err := f.PushBlobChunkedResume(ctx, repo, id, off, salt+2)
-		return result{args: []any{repo, id, off, salt + 2}, repoArg: repo, vals: []any{w}, err: err}
+		id := pickS(fmt.Sprintf("id-%d", salt), "", fmt.Sprintf("id-%d", salt), "/"+fmt.Sprint(salt))
+		off := pickI(int64(salt)-1, 0, -1, -1)
+		cs := int(pickI(int64(salt+2), 0, -1, 0))
+		w, err := f.PushBlobChunkedResume(ctx, repo, id, off, cs)
+		return result{args: []any{repo, id, off, cs}, repoArg: repo, vals: []any{w}, err: err}
 	case 10:
-		from := repo + "/from"
+		from := pickS(repo+"/from", "", repo+"/from", repo)
 		d, err := f.MountBlob(ctx, from, repo, dig)
 		return result{args: []any{from, repo, dig}, repoArg: repo, vals: []any{d}, err: err}
 	case 11:
 		contents := []byte(fmt.Sprintf("{%d}", salt))
-		d, err := f.PushManifest(ctx, repo, tag, contents, "mt/x")
-		return result{args: []any{repo, tag, contents, "mt/x"}, repoArg: repo, vals: []any{d}, err: err}
+		mt := pickS("mt/x", "", "mt/x", "application/vnd.oci.image.manifest.v1+json")
+		if variant == 1 {
+			contents = nil
+		}
+		d, err := f.PushManifest(ctx, repo, tag, contents, mt)
+		return result{args: []any{repo, tag, contents, mt}, repoArg: repo, vals: []any{d}, err: err}
 	case 12:
 		err := f.DeleteBlob(ctx, repo, dig)
 		return result{args: []any{repo, dig}, repoArg: repo, err: err}
@@ -294,8 +318,9 @@ func invoke(f *ociregistry.Funcs, m int, ctx context.Context, salt int) result {
 		items, n := collect(f.Tags(ctx, repo, tag))
 		return result{args: []any{repo, tag}, repoArg: repo, vals: items, iter: true, yields: n}
 	case 17:
-		items, n := collect(f.Referrers(ctx, repo, dig, "at/"+tag))
-		return result{args: []any{repo, dig, "at/" + tag}, repoArg: repo, vals: items, iter: true, yields: n}
+		at := pickS("at/"+tag, "", "at/"+tag, "at/"+tag)
+		items, n := collect(f.Referrers(ctx, repo, dig, at))
+		return result{args: []any{repo, dig, at}, repoArg: repo, vals: items, iter: true, yields: n}
 	}
 	panic("unreachable")
 }
@@ -354,7 +379,8 @@ func argsEqual(a, b []any) bool {
 func main() {
 	run := evid.Start("C20", "exploration")
 	run.SetRule("cases = (assignment of set/unset to the 18 Funcs fields) × method × {default, custom NewError}; nil table included. " +
-		"distinct_nontrivial counts distinct (method, own field set?, number of other fields set, custom NewError?) shapes observed; " +
+		"The non-repository arguments of each call follow one of 4 variants (plain salt-derived values; zero/empty; negative; whole-blob range (0,-1), mount within one repository, literal-looking upload id), chosen by a hash of (assignment, method, call number). " +
+		"distinct_nontrivial counts distinct (method, own field set?, number of other fields set, custom NewError?, argument variant) shapes observed; " +
 		"every case is non-trivial (a call through the table with recorded stubs).")
 	run.Assume("a stub returning both a sentinel value and a sentinel error must have both relayed unchanged")
 
@@ -398,11 +424,13 @@ func main() {
 		ctxVal := salt
 		ctx := context.WithValue(context.Background(), ctxKey{}, ctxVal)
 		set := mask&(1<<m) != 0
-		desc := map[string]any{"method": methodNames[m], "mask": fmt.Sprintf("%018b", mask), "own_set": set, "custom_newerror": custom, "nil_table": nilTable}
+		variant := int((mask*2654435761+uint32(m)*40503+uint32(salt)*97)>>9) % len(argVariants)
+		run.Count("args:"+argVariants[variant], 1)
+		desc := map[string]any{"method": methodNames[m], "mask": fmt.Sprintf("%018b", mask), "own_set": set, "custom_newerror": custom, "nil_table": nilTable, "argument_variant": argVariants[variant]}
 		var res result
 		run.Eval(1)
-		okRun := run.Case("total/"+methodNames[m], desc, func() { res = invoke(f, m, ctx, salt) })
-		shape := fmt.Sprintf("%s/set=%v/others=%d/custom=%v/nil=%v", methodNames[m], set, bits.OnesCount32(mask&^(1<<m)), custom, nilTable)
+		okRun := run.Case("total/"+methodNames[m], desc, func() { res = invoke(f, m, ctx, salt, variant) })
+		shape := fmt.Sprintf("%s/set=%v/others=%d/custom=%v/nil=%v/args=%s", methodNames[m], set, bits.OnesCount32(mask&^(1<<m)), custom, nilTable, argVariants[variant])
 		run.Distinct(shape)
 		if !okRun {
 			return
